@@ -248,8 +248,11 @@ def run(model, tier):
         'every fan of both 1D solvers uses the sound speed of its own state, and the Sedov interior (similarity functions in '
         'parametric form, standard / omega2 / omega3 branches) satisfies the Euler equations in geometry j (the C04 / C11 rules). '
         'The escape-of-HE-products formulas of regions I-V (each branch of the region chain executed with symbolic (x, t)) satisfy '
-        'the planar Euler equations for gamma = 3. Numerically integrated solutions (Guderley, general-EOS fans) and the EHEP '
-        'region selection (polygon tests) are not decided.')
+        'the planar Euler equations for gamma = 3. Guderley: with (V, C, R) function symbols whose x-derivatives are declared to be '
+        'the coded right-hand side g, the coded transformation to physical variables satisfies the Euler equations in geometry n '
+        '(Lazarus time) in each integrating branch of state(); f is the same system; the adiabatic integral is a first integral. '
+        'The numerical integrations themselves (Guderley eigenvalues, general-EOS fans) and the EHEP region selection (polygon '
+        'tests) are not decided.')
     res.rule_text = 'instance = one conservation equation on one smooth piece of one solver'
     res.trusted_base = ['CPython ast', 'sympy expand / FracField', 'value-graph builder', 'spec/pde_scope.json']
     spec = load_spec('pde_scope.json')
@@ -275,7 +278,11 @@ def run(model, tier):
         from . import c01_ehep
         c01_ehep.regions(model, part)
 
-    tasks = [(closed_forms, ()), (riemann, ()), (ehep, ())] + c11.interior_pde_tasks(model)
+    def guderley(part):
+        from . import c01_guderley
+        c01_guderley.similarity(model, part)
+
+    tasks = [(closed_forms, ()), (riemann, ()), (ehep, ()), (guderley, ())] + c11.interior_pde_tasks(model)
     run_parallel(tasks, res)
     for f in res.findings:
         if f.prop != PROP:
